@@ -4,7 +4,7 @@ from .lib import *
 
 RULE = ("server-facing calls in five state classes (Await100 after POST+Expect; RecvResponse after GET / HEAD / POST body; RecvBody "
         "with chunked, Content-Length and close-delimited framing) fed with (i) EVERY string over the 20-symbol alphabet "
-        "{H T P / 1 . 0 2 3 SP : ; CR LF a f 0x80 , + -} up to length 3 (quick) / 4 (thorough), placed where the call parses "
+        "{H T P / 1 . 0 2 3 SP : ; CR LF a f 0x80 , + -} up to length 3 (quick) / 4 (thorough; length 4 completely at the first parse position of Await100, RecvResponse and the chunked reader, a tenth elsewhere), placed where the call parses "
         "(start of the head, after a valid status line, start of the chunked coding, after a chunk size line), and (ii) grammar-aware "
         "mutations of valid exchanges (bit flips, deletions, duplications, splices, oversize numbers and size lines, stray CR/LF, "
         "129+ fields, 70000-byte field name, all five close conditions at once, every combination of the close conditions on complete "
@@ -291,6 +291,10 @@ def generate(rng, tier, mult):
             for pi, pre in enumerate(positions[cls]):
                 # quick tier: the full product only at the first position of each class, a third elsewhere
                 if pi > 0 and tier == "quick" and (len(s) == maxlen and rng.random() < 0.8):
+                    continue
+                # thorough tier: all 160 000 strings of length 4 at the first position of the three parsing classes, a tenth elsewhere
+                # (the full product is 2.7 million scripts and 28 GB of resident memory in the orchestrator)
+                if tier == "thorough" and len(s) == maxlen and (pi > 0 or cls == "recv_post") and rng.random() < 0.9:
                     continue
                 if cls in ("body_length", "body_close") and len(s) > 2:
                     continue   # framing ignores content; short strings suffice
